@@ -60,6 +60,7 @@ type Config struct {
 	Workers      int
 	Initial      map[string][]byte // initial cache: relative path under test.store -> bytes
 	PartialWins  bool              // outcome of the partial-vs-full load race in the squasher (default: the full snapshot wins when it exists)
+	LateLoader   bool              // with PartialWins: the losing full-snapshot load completes late, during a later merge of the same module (racestore.go)
 	Cap          int               // multiplicity cap of idempotent messages in the state key (0 = exact)
 }
 
@@ -102,6 +103,8 @@ func (x *xWorker) Work(ctx context.Context, unit stage.Unit, startBlock uint64, 
 
 // World: one controlled execution.
 type World struct {
+	stats       *metrics.Stats // closed with the world: its rate counter owns a janitor goroutine
+	late        *lateLoaders
 	cfg         *Config
 	Dir         string
 	ctx         context.Context
@@ -183,7 +186,12 @@ func NewWorld(cfg *Config, memo *Memo) (w *World, err error) {
 	if err != nil {
 		return nil, err
 	}
-	var cacheStore dstore.Store = &raceStore{Store: tagStore, fullWins: !cfg.PartialWins}
+	rs := &raceStore{Store: tagStore, fullWins: !cfg.PartialWins}
+	if cfg.PartialWins && cfg.LateLoader {
+		w.late = &lateLoaders{parked: map[string][]*parkedLoad{}}
+		rs.late = w.late
+	}
+	var cacheStore dstore.Store = rs
 	ctx, cancel := context.WithCancel(context.Background())
 	w.cancel = cancel
 	ctx = reqctx.WithLogger(ctx, zap.NewNop())
@@ -203,7 +211,8 @@ func NewWorld(cfg *Config, memo *Memo) (w *World, err error) {
 	details.MaxParallelJobs = uint64(cfg.Workers)
 	w.details = details
 	ctx = reqctx.WithRequest(ctx, details)
-	ctx = reqctx.WithReqStats(ctx, metrics.NewReqStats(&metrics.Config{OutputModule: cfg.Output, ProductionMode: cfg.Prod}, zap.NewNop()))
+	w.stats = metrics.NewReqStats(&metrics.Config{OutputModule: cfg.Output, ProductionMode: cfg.Prod}, zap.NewNop())
+	ctx = reqctx.WithReqStats(ctx, w.stats)
 	ctx = reqctx.WithTier2RequestParameters(ctx, sysrun.Tier2Params(cfg.sysCfg(w.Dir)))
 	w.ctx = ctx
 	g, err := exec.NewOutputModuleGraph(cfg.Output, cfg.Prod, cfg.Modules, 0)
@@ -264,9 +273,22 @@ func NewWorld(cfg *Config, memo *Memo) (w *World, err error) {
 
 var closed int64
 
+// LateReleased / LateUnsettled: late full-snapshot loads completed during a later merge, and those whose effect did not
+// become visible within the settle limit (summed over all worlds).
+var LateReleased, LateUnsettled int64
+
 func (w *World) Close() {
+	if w.late != nil {
+		atomic.AddInt64(&LateReleased, atomic.LoadInt64(&w.late.Released))
+		atomic.AddInt64(&LateUnsettled, atomic.LoadInt64(&w.late.Unsettled))
+		w.late.close()
+	}
 	if w.cancel != nil {
 		w.cancel()
+	}
+	if w.stats != nil {
+		w.stats.LogAndClose()
+		w.stats = nil
 	}
 	os.RemoveAll(w.Dir)
 	if atomic.AddInt64(&closed, 1)%2000 == 0 {
@@ -618,6 +640,39 @@ func (w *World) FinalStores() (map[string]string, error) {
 		out[name] = strings.Join(kvs, " ")
 	}
 	return out, nil
+}
+
+// StoreCaches: for every store module the squasher keeps in memory, its name, the block the in-memory store is labelled
+// with and its content as sorted "key=value" pairs (hook VerifStoreCache). Read between events only.
+func (w *World) StoreCaches() map[string]struct {
+	Block uint64
+	Dump  string
+} {
+	out := map[string]struct {
+		Block uint64
+		Dump  string
+	}{}
+	if w.sched == nil || w.sched.Stages == nil || w.graph == nil {
+		return out
+	}
+	for _, m := range w.cfg.Modules.Modules {
+		if m.GetKindStore() == nil {
+			continue
+		}
+		cached, block, found := w.sched.Stages.VerifStoreCache(w.graph.ModuleHashes().Get(m.Name))
+		kv, _ := cached.(*store.FullKV)
+		if !found || kv == nil {
+			continue
+		}
+		var kvs []string
+		kv.Iter(func(k string, v []byte) error { kvs = append(kvs, fmt.Sprintf("%s=%s", k, v)); return nil })
+		sort.Strings(kvs)
+		out[m.Name] = struct {
+			Block uint64
+			Dump  string
+		}{block, strings.Join(kvs, " ")}
+	}
+	return out
 }
 
 // BuildStoresEnd: the block up to which the plan builds stores (ok=false when it builds none).
